@@ -110,10 +110,11 @@ def merge(results):
 
 
 def write_replay(pid, v):
-    os.makedirs(os.path.join(VERIF, 'replays'), exist_ok=True)
+    rdir = os.environ.get('PV_REPLAY_DIR', os.path.join(VERIF, 'replays'))
+    os.makedirs(rdir, exist_ok=True)
     blob = json.dumps(v, sort_keys=True, default=str)
     sha = hashlib.sha1(blob.encode()).hexdigest()[:12]
-    path = os.path.join(VERIF, 'replays', '%s-%s.json' % (pid, sha))
+    path = os.path.join(rdir, '%s-%s.json' % (pid, sha))
     with open(path, 'w') as f:
         json.dump(v, f, indent=1, sort_keys=True, default=str)
     return path
@@ -247,8 +248,9 @@ def main(argv=None):
     if meta.get('exhaustive'):
         ev['coverage']['exhaustive'] = True
     ev['coverage'].update({k: v for k, v in extra.items()})
-    os.makedirs(os.path.join(VERIF, 'evidence'), exist_ok=True)
-    with open(os.path.join(VERIF, 'evidence', '%s.json' % pid), 'w') as f:
+    edir = os.environ.get('PV_EVIDENCE_DIR', os.path.join(VERIF, 'evidence'))
+    os.makedirs(edir, exist_ok=True)
+    with open(os.path.join(edir, '%s.json' % pid), 'w') as f:
         json.dump(ev, f, indent=1, sort_keys=True, default=str)
     print('%s %s: %s; %d evaluations, %d distinct, %d shards, %.1fs' % (
         pid, tier, ev['coverage']['verdict'],
